@@ -693,6 +693,22 @@ fn parse_ixdtf(source: &str, variant: ParseVariant) -> TemporalResult<IxdtfParse
             .with_message("Duplicate calendar value with critical flag found."));
     }
 
+    // NOTE: The grammar allows at most nine fractional digits, for the time as well as for the offset;
+    // `ixdtf` parses longer fractions, so they are rejected here for every goal.
+    let time_fraction_is_valid = record
+        .time
+        .and_then(|time| time.fraction)
+        .is_none_or(|fraction| fraction.to_nanoseconds().is_some());
+    let offset_fraction_is_valid = match record.offset {
+        Some(UtcOffsetRecordOrZ::Offset(offset)) => offset
+            .fraction
+            .is_none_or(|fraction| fraction.to_nanoseconds().is_some()),
+        _ => true,
+    };
+    if !time_fraction_is_valid || !offset_fraction_is_valid {
+        return Err(TemporalError::range().with_message("fractional seconds exceeds nine digits."));
+    }
+
     // Validate that the DateRecord exists.
     if variant != ParseVariant::Time && record.date.is_none() {
         return Err(
